@@ -1,40 +1,28 @@
 (* C12 - a finished step's log holds everything the step printed.
    This file holds nothing but the property theorems (closed by `exact`), Print Assumptions and Examples.
    Model: Log/Model.v - files, descriptors, bufio.Writer (4096: Write with bypass / fill-flush, Flush, ReadFrom),
-   io.MultiWriter, the capture pipe (16 page slots, merge rule of pipe_write), node.setup / setupExec / Execute /
-   teardown with the `done` flag, attempts, stale teardowns.  Tie to the code: tools/props/C12.py (real scheduler,
-   real sh children printing a position-dependent pattern; file contents against the model's prediction).
+   io.MultiWriter, the capture buffer, node.setup / setupExec / Execute / teardown with the `done` flag, attempts.
+   Tie to the code: tools/props/C12.py (real scheduler, real sh children printing a position-dependent pattern; file
+   contents against the model's prediction).
 
-   The full statement
-       forall c atts lates, atts <> [] -> complete c (last atts []) (run c atts lates)
-   (every subset of {stdout file, stderr file, output variable, script}, every number of attempts, every chunking,
-   interleaving and size) is FALSE of the faithful model: F12a, F12b, F12c - the _refuted theorems below, each
-   replayed on the real code by the check.  Proved: C12_complete_partial - one attempt (no retry happened), any
-   configuration, `output:` unset or at most half a pipe (32768 bytes) towards the capture pipe; and
-   C12_complete_retry_direct_partial - any number of retries when neither `stdout:` nor `output:` is configured and
-   the teardowns come in the usual order. *)
+   The model describes the REPAIRED code.  Before 8880f0d (Node.done never reset; the stale worker of a failed attempt
+   tore down after handing the node back) and f5eca82 (capture through an undrained pipe) the statement below was false
+   of the faithful model (F12a, F12b, F12c - refuted by witnesses, each replayed on the real code); those witnesses
+   are now the positive Examples at the end. *)
 From Coq Require Import List NArith.
 Import ListNotations.
-From BD.Log Require Import Model Proofs ProofsRetry.
+From BD.Log Require Import Model Proofs.
 
-(* For every configuration, every chunking / interleaving of the two streams and every size: when the worker of a
-   step that needed no retry is gone, no write blocked, the file named by State.Log holds exactly the bytes that
-   went towards the log in arrival order, the `stdout:` file ends with the same sequence, the `stderr:` file with
-   every stderr byte.  Invariant of the proof: file ++ buffered = bytes accepted (and buffered <= 4096). *)
-Theorem C12_complete_partial : forall (A : Type) (c : cfg) (cs : list (chunk A)),
-  (c_output c = false \/ length (log_of A c cs) <= HALFPIPE) -> complete A c cs (run A c [cs] []).
-Proof. exact complete_single. Qed.
-Print Assumptions C12_complete_partial.
-
-(* Any number of retries is fine as long as the wiring is the direct one (no `stdout:` file, no `output:` variable:
-   every chunk goes straight to the file through ReadFrom, nothing is ever buffered) and every stale worker tears down
-   before the next attempt is set up (lates = []): all configurations of {stderr file, script}, every number of
-   attempts, every chunking, interleaving and size. *)
-Theorem C12_complete_retry_direct_partial : forall (A : Type) (c : cfg),
-  c_stdout c = false -> c_output c = false ->
-  forall atts : list (list (chunk A)), atts <> [] -> complete A c (last atts []) (run A c atts []).
-Proof. exact retry_direct. Qed.
-Print Assumptions C12_complete_retry_direct_partial.
+(* For every subset of {stdout file, stderr file, output variable, script}, every number of attempts (retries), every
+   chunking / interleaving of the two streams and every size: when the worker of the last attempt is gone, the file
+   named by State.Log holds exactly the bytes of the last attempt that went towards the log, in arrival order; the
+   `stdout:` file ends with the same sequence; the `stderr:` file ends with every stderr byte of the last attempt.
+   (No write can block in the model: the worker always gets there.)
+   Invariant of the proof: for every sink, file ++ buffered = bytes accepted and buffered <= 4096. *)
+Theorem C12_complete : forall (A : Type) (c : cfg) (atts : list (list (chunk A))),
+  atts <> [] -> complete A c (last atts []) (run A c atts).
+Proof. exact complete_all. Qed.
+Print Assumptions C12_complete.
 
 (* the sequence that reaches the log is an order-preserving merge of the attempt's stdout and - unless `stderr:` is
    configured - its stderr: every byte of either stream is there, in order *)
@@ -43,61 +31,39 @@ Theorem C12_log_is_merge : forall (A : Type) (c : cfg) (cs : list (chunk A)),
 Proof. exact log_of_merge. Qed.
 Print Assumptions C12_log_is_merge.
 
-(* what an `output:` variable receives before TrimSpace (C11): the same sequence - stdout, and stderr too when it
-   is not redirected (F11d) *)
-Theorem C12_capture_partial : forall (A : Type) (c : cfg) (cs : list (chunk A)),
-  c_output c = true -> length (log_of A c cs) <= HALFPIPE ->
-  outvar A (run A c [cs] []) = Some (log_of A c cs).
-Proof. exact capture_single. Qed.
-Print Assumptions C12_capture_partial.
+(* what an `output:` variable receives before TrimSpace (C11): the same sequence of the last attempt, of any size ... *)
+Theorem C12_capture : forall (A : Type) (c : cfg) (atts : list (list (chunk A))),
+  atts <> [] -> c_output c = true -> outvar A (run A c atts) = Some (log_of A c (last atts [])).
+Proof. exact capture_all. Qed.
+Print Assumptions C12_capture.
 
+(* ... which is NOT the step's stdout when the step also writes to stderr and no `stderr:` file is set (F11d, C11) *)
 Theorem C12_capture_stdout_refuted : exists (c : cfg) (cs : list (chunk nat)),
-  c_output c = true /\ outvar nat (run nat c [cs] []) <> Some (out_of nat cs).
+  c_output c = true /\ outvar nat (run nat c [cs]) <> Some (out_of nat cs).
 Proof. exact capture_stdout_refuted. Qed.
 Print Assumptions C12_capture_stdout_refuted.
 
-(* F12a: retry x MultiWriter wiring (stdout: file / output: variable), teardowns in the usual order *)
-Theorem C12_complete_refuted_retry_stdout : exists (c : cfg) (atts : list (list (chunk nat))) (lates : list nat),
-  atts <> [] /\ Forall (fun d => d = 0) lates /\ ~ complete nat c (last atts []) (run nat c atts lates).
-Proof. exact complete_refuted_retry_stdout. Qed.
-Print Assumptions C12_complete_refuted_retry_stdout.
-
-Theorem C12_complete_refuted_retry_output : exists (c : cfg) (atts : list (list (chunk nat))) (lates : list nat),
-  atts <> [] /\ Forall (fun d => d = 0) lates /\ ~ complete nat c (last atts []) (run nat c atts lates).
-Proof. exact complete_refuted_retry_output. Qed.
-Print Assumptions C12_complete_refuted_retry_output.
-
-(* F12b: plain wiring, the stale worker's teardown lands after the next attempt's setup *)
-Theorem C12_complete_refuted_stale_teardown : exists (c : cfg) (atts : list (list (chunk nat))) (lates : list nat),
-  atts <> [] /\ c_stdout c = false /\ c_output c = false /\ ~ complete nat c (last atts []) (run nat c atts lates).
-Proof. exact complete_refuted_stale_teardown. Qed.
-Print Assumptions C12_complete_refuted_stale_teardown.
-
-(* F12c: output: beyond the pipe - and the half-pipe premise is nearly sharp *)
-Theorem C12_complete_refuted_pipe : exists (c : cfg) (cs : list (chunk nat)),
-  c_output c = true /\ blocked nat (run nat c [cs] []) = true.
-Proof. exact complete_refuted_pipe. Qed.
-Print Assumptions C12_complete_refuted_pipe.
-
-Theorem C12_complete_refuted_pipe_chunking : exists (c : cfg) (cs : list (chunk nat)),
-  c_output c = true /\ N.of_nat (length (log_of nat c cs)) = 34833%N /\ blocked nat (run nat c [cs] []) = true.
-Proof. exact complete_refuted_pipe_chunking. Qed.
-Print Assumptions C12_complete_refuted_pipe_chunking.
-
-(* Non-vacuity: the premise of C12_complete_partial holds for a run with every setting on, 8003 bytes in chunks
-   that exercise bypass and fill-flush, and the files hold what the theorem says *)
+(* before fix 8880f0d: the second attempt's log stayed empty (F12a) *)
+Example C12_retry_stdout_fixed :
+  let r := run nat (mkc true false false false) [[(Out, [1])]; [(Out, [2])]] in
+  dsk nat r (logpath nat r) = [2] /\ dsk nat r P_STDOUT = [1; 2].
+Proof. exact retry_stdout_fixed. Qed.
+Example C12_retry_output_fixed :
+  let r := run nat (mkc false false true false) [[(Out, [1])]; [(Out, [2])]] in
+  dsk nat r (logpath nat r) = [2] /\ outvar nat r = Some [2].
+Proof. exact retry_output_fixed. Qed.
+(* before fix f5eca82: 65537 captured bytes blocked the step for good (F12c) *)
+Example C12_big_output_fixed :
+  let cs := [(Out, repeat 0 (N.to_nat 32768)); (Out, repeat 0 (N.to_nat 32768)); (Out, [0])] in
+  let r := run nat (mkc false false true false) [cs] in
+  N.of_nat (length (dsk nat r (logpath nat r))) = 65537%N /\
+  match outvar nat r with Some v => N.of_nat (length v) = 65537%N | None => False end.
+Proof. exact big_output_fixed. Qed.
+(* non-vacuity: every setting on, three attempts *)
 Example C12_nonvacuous :
-  let c := mkc true true true false in
-  let cs := [(Out, repeat 7 5000); (Err, [1; 2; 3]); (Out, repeat 8 3000)] in
-  (c_output c = false \/ length (log_of nat c cs) <= HALFPIPE) /\
-  dsk nat (run nat c [cs] []) (logpath nat (run nat c [cs] [])) = repeat 7 5000 ++ repeat 8 3000 /\
-  dsk nat (run nat c [cs] []) P_STDERR = [1; 2; 3].
-Proof. exact complete_single_example. Qed.
-
-Example C12_retry_nonvacuous :
-  let c := {| c_stdout := false; c_stderr := true; c_output := false; c_script := true |} in
-  let atts := [[(Out, [1; 2]); (Err, [9])]; [(Out, [3])]; [(Err, [8]); (Out, [4; 5])]] in
-  c_stdout c = false /\ c_output c = false /\ atts <> [] /\
-  dsk nat (run nat c atts []) (logpath nat (run nat c atts [])) = [4; 5] /\
-  dsk nat (run nat c atts []) P_STDERR = [9; 8].
-Proof. exact retry_direct_example. Qed.
+  let c := mkc true true true true in
+  let atts := [[(Out, repeat 7 5000); (Err, [1; 2; 3]); (Out, repeat 8 3000)]; [(Out, [4])]; [(Err, [9]); (Out, repeat 5 4097); (Out, [6])]] in
+  let r := run nat c atts in
+  atts <> [] /\ dsk nat r (logpath nat r) = repeat 5 4097 ++ [6] /\ dsk nat r P_STDERR = [1; 2; 3; 9] /\
+  outvar nat r = Some (repeat 5 4097 ++ [6]).
+Proof. exact complete_all_example. Qed.
